@@ -232,7 +232,7 @@ def cases(draw):
     return {
         "spec": spec,
         "mods": applied,
-        "path": draw(st.sampled_from(build.BUILD_PATHS)),
+        "path": draw(st.sampled_from(build.BUILD_PATHS_LP)),
         "method": method,
         "api": api,
         "fluxes": True if api == "function" else draw(st.sampled_from([True, False])),
@@ -374,21 +374,22 @@ def _perturbations(sc, base, names, fluxes, seed):
     rot = list(range(j0, n)) + list(range(j0))
     if fluxes:
         v = base
+        pos = [names.index(rid) for rid in sc.rids]  # column of each reaction of the spec (the model's list order may differ)
         for letter, val in (("l", sc.lb[j0] - PUSH), ("u", sc.ub[j0] + PUSH)):
             w = v.copy()
-            w[j0] = val
+            w[pos[j0]] = val
             out.append((w, letter, False, f"flux of {sc.rids[j0]} set to {float(val)!r} (bounds [{sc.lb[j0]}, {sc.ub[j0]}])", f"flux-{letter}"))
         for jj in rot:  # off steady state but strictly inside the bounds
             if not np.any(sc.S[:, jj]):
                 continue
-            if v[jj] + PUSH <= sc.ub[jj] - PUSH:
+            if v[pos[jj]] + PUSH <= sc.ub[jj] - PUSH:
                 delta = PUSH
-            elif v[jj] - PUSH >= sc.lb[jj] + PUSH:
+            elif v[pos[jj]] - PUSH >= sc.lb[jj] + PUSH:
                 delta = -PUSH
             else:
                 continue
             w = v.copy()
-            w[jj] += delta
+            w[pos[jj]] += delta
             out.append((w, "e", True, f"flux of {sc.rids[jj]} moved by {delta} inside its bounds (S v off by {PUSH * float(np.abs(sc.S[:, jj]).max())!r})", "flux-e"))
             break
         return out
@@ -492,9 +493,13 @@ def check_case(case, ctx):
         classes.append("integer-variable")
     before = observe.snapshot(model)
     sc = SpecCheck(spec)
-    want_cols = rids if case["fluxes"] else [v.name for v in model.variables]
+    # columns follow the model's lists / the solver's variables (a build path may have reordered the reaction list or put
+    # an auxiliary variable fixed at zero, "free_var", among the solver variables)
+    want_cols = [r.id for r in model.reactions] if case["fluxes"] else [v.name for v in model.variables]
+    if case["fluxes"] and sorted(want_cols) != sorted(rids):
+        raise RuntimeError(f"harness: model.reactions {want_cols} differ from the spec {rids}")
     if not case["fluxes"] and not case["integer"]:
-        if sorted(want_cols) != sorted(sc.var_names):
+        if sorted(c for c in want_cols if c != "free_var") != sorted(sc.var_names):
             raise RuntimeError(f"harness: variable names {want_cols} differ from the documented split {sc.var_names}")
 
     origin_in = all(r["lb"] <= 0 <= r["ub"] for r in spec["rxns"]) and all(
@@ -554,7 +559,7 @@ def check_case(case, ctx):
             _v("sample:not-finite", f"frame {b} contains non-finite values: {X[~np.isfinite(X).all(axis=1)][:1].tolist()}")
         where = f"{case['method']} {case['api']} frame {b}"
         if case["fluxes"]:
-            V = X
+            V = fr[rids].to_numpy(dtype=float)  # by label, in the order of the spec
         else:
             names = list(fr.columns)
             order = [names.index(nm) for nm in sc.var_names]
